@@ -25,7 +25,7 @@ LEVEL_NOTE = ("Tolerance 100*(10*|f(y_returned)| + backward-solver tolerance) re
 RULE = ("seeded sampling over entry point x forward method x family x (n, batch) x backward option x placement x grad-leaf subset x y0 x "
         "y0.requires_grad; non-trivial = forward converged silently, first-order gradients were compared for >= 1 leaf with a non-zero "
         "reference gradient and (unless the case is first-order only) the second-order contraction was compared with a non-zero reference")
-MIN_NONTRIVIAL = {"quick": 800, "thorough": 8000}
+MIN_NONTRIVIAL = {"quick": 800, "thorough": 6000}
 ASSUMPTIONS = [
     "problem families of C03 (contraction constant <= 0.6, Jacobian cond <= 4); forward tolerances f_tol = x_tol = 1e-10 (gd/adam: x_rtol 1e-12/1e-9)",
     "a forward call that warned is not differentiated (the formula is stated at a converged point); a backward solve that warned is not compared",
@@ -39,7 +39,7 @@ REQUIRED_COUNTERS = {
               "backward_default_dense": 60, "y0_nograd_checked": 150, "nontensor_param_cases": 100, "complex_cases": 100,
               "pair_compared": 60, "placement_module": 60, "placement_editable_derived": 60, "placement_explicit_nt": 60,
               "fwd_gd": 20, "fwd_adam": 20, "fwd_anderson_acc": 30, "fwd_newton": 60, "backward_gmres": 10, "backward_cg": 60},
-    "thorough": {"first_order_compared": 8000, "second_order_compared": 6000, "backward_solves": 15000, "backward_default_krylov": 600,
+    "thorough": {"first_order_compared": 5000, "second_order_compared": 4000, "backward_solves": 10000, "backward_default_krylov": 600,
                  "backward_default_dense": 600, "y0_nograd_checked": 1500, "nontensor_param_cases": 1000, "complex_cases": 1000,
                  "pair_compared": 600, "placement_module": 600, "placement_editable_derived": 600, "placement_explicit_nt": 600,
                  "fwd_gd": 200, "fwd_adam": 200, "fwd_anderson_acc": 300, "fwd_newton": 600, "backward_gmres": 100, "backward_cg": 600},
@@ -62,7 +62,7 @@ BCK_NAMES = ["default", "default", "exactsolve", "bicgstab", "cg", "gmres"]
 
 def cases(seed, tier):
     out = []
-    N = 1300 if tier == "quick" else 14000
+    N = 1300 if tier == "quick" else 10000
     tasks = ["rootfinder", "equilibrium", "minimize"]
     for i in range(N):
         rng = random.Random(sub_seed(seed, "c04", i))
@@ -80,7 +80,7 @@ def cases(seed, tier):
         d["order"] = 2
         out.append(d)
     # pairs: the same problem solved by two (method, y0) combinations must give the same gradient
-    NP = 150 if tier == "quick" else 1500
+    NP = 150 if tier == "quick" else 1200
     for i in range(NP):
         rng = random.Random(sub_seed(seed, "c04p", i))
         task = tasks[i % 3]
